@@ -36,9 +36,12 @@ def c13_jobs(rng, quick):
     sizes = sorted([(11 + 4 * L, -L) for L in range(1, 5)] + [(14 + 4 * L + 1 + 2 * (((14 + 4 * L) // 2 - 1) // 15), L) for L in range(1, 33)])
     # dense sweep over the small sizes (where compact and full-range symbols compete) at low and default percentages, sparse above
     payloads = (list(range(0, 131, 3)) + [150, 250]) if quick else (list(range(0, 200)) + [250, 400, 600, 900, 1300])
-    for n in payloads:
-        for pct in ((0, 10, 33) if quick else (0, 5, 10, 16, 23, 33, 50, 100)):
-            c = bytes(rng.choice(b"abcdefg hij") for _ in range(n))
+    combos = [(n, pct, b"abcdefg hij") for n in payloads for pct in ((10, 33) if quick else (5, 10, 16, 23, 33, 50, 100))]
+    # at 0 % every length: size limits that are exact word counts (a compact symbol holds at most 64 data words) are hit by single lengths only
+    combos += [(n, 0, alpha) for n in range(0, 135 if quick else 400) for alpha in ((b"ABCDEFGH IJ",) if quick else (b"ABCDEFGH IJ", b"0123456789", b"abc xyz"))]
+    for (n, pct, alpha) in combos:
+        if True:
+            c = bytes(rng.choice(alpha) for _ in range(n))
             jobs.append(gen.enc("aztec", list(c), (pct, 0), proj="full", hist=len(jobs)))
             h = jobs[-1]["hist"]
             est = n * 5.3 * (1 + pct / 100) + 40
@@ -68,7 +71,8 @@ def run(tier):
     chk.add_model([dict(module="MC_QRFormat.tla", cfg="MC_QRFormat.cfg", workers=4, timeout=3000, heap="6g"),
                    dict(module="MC_DM.tla", cfg="MC_DM_quick.cfg", workers=4, heap="6g"),
                    dict(module="MC_Aztec.tla", cfg="MC_Aztec.cfg", workers=4, heap="6g"),
-                   dict(module="MC_PDF417.tla", cfg="MC_PDF417.cfg", workers=4, heap="6g")])
+                   dict(module="MC_PDF417.tla", cfg="MC_PDF417.cfg", workers=4, heap="6g"),
+                   dict(module="MC_PDFDims.tla", cfg="MC_PDFDims.cfg", workers=4)])
     drive = vlib.build_harness(chk.work)
     jobs = c13_jobs(chk.rng, quick)
     # Aztec pairs must stay in one shard and in order: route by hand
